@@ -461,7 +461,7 @@ func runC08(r *Report) {
 	if cc := r.need("R-C08-1", sessPkg, "SessionManager.CloseConnection"); cc != nil {
 		for _, ret := range Returns(cc) {
 			hits := WalkFrom(cc.Blocks[0], nil, func(in ssa.Instruction) int {
-				if IsCallTo("UnregisterConnection")(in) {
+				if IsCallTo("UnregisterConnection")(in) || (in.Parent() == cc && performsVia(in, IsCallTo("UnregisterConnection"), ret.Block())) {
 					return Stop
 				}
 				if in == ssa.Instruction(ret) {
